@@ -1,6 +1,520 @@
 package main
 
-// placeholder until the C20 translator is written
+// Translation of the synchronisation skeletons used by property C20 into Gallina terms of the
+// statement types of coq/Model/C20_syntax.v:
+//
+//   - net/queue/queue.go: LinkedListQueue.Push / Pull / Close and ChannelQueue.Push / Pull / Close
+//     (type stmt), plus shape checks of the two constructors;
+//   - server/playerlist.go: ClientJoin / ClientLeft / CheckPlayer / Len (type pstmt).
+//
+// Only go/parser + go/ast are used.  Every statement must match one of the shapes listed below
+// EXACTLY; anything else makes the translator fail (non-zero exit of gotrans), which the check
+// reports as a broken correspondence.
+
+import (
+	"bytes"
+	"fmt"
+	"go/ast"
+	"go/parser"
+	"go/token"
+	"path/filepath"
+	"strings"
+)
+
+// ---------------------------------------------------------------- expression rendering
+
+// es renders the small expression language that occurs in the skeletons; unknown nodes render as
+// "?<type>" and therefore never match an expected shape.
+func es(e ast.Expr) string {
+	switch x := e.(type) {
+	case nil:
+		return ""
+	case *ast.Ident:
+		return x.Name
+	case *ast.BasicLit:
+		if x.Kind == token.STRING {
+			return "\"...\""
+		}
+		return x.Value
+	case *ast.SelectorExpr:
+		return es(x.X) + "." + x.Sel.Name
+	case *ast.CallExpr:
+		var as []string
+		for _, a := range x.Args {
+			as = append(as, es(a))
+		}
+		if x.Ellipsis != token.NoPos {
+			return "?ellipsis"
+		}
+		return es(x.Fun) + "(" + strings.Join(as, ",") + ")"
+	case *ast.TypeAssertExpr:
+		return es(x.X) + ".(" + es(x.Type) + ")"
+	case *ast.BinaryExpr:
+		return es(x.X) + " " + x.Op.String() + " " + es(x.Y)
+	case *ast.UnaryExpr:
+		return x.Op.String() + es(x.X)
+	case *ast.StarExpr:
+		return "*" + es(x.X)
+	case *ast.ParenExpr:
+		return "(" + es(x.X) + ")"
+	case *ast.IndexExpr:
+		return es(x.X) + "[" + es(x.Index) + "]"
+	case *ast.CompositeLit:
+		var as []string
+		for _, a := range x.Elts {
+			as = append(as, es(a))
+		}
+		return es(x.Type) + "{" + strings.Join(as, ",") + "}"
+	case *ast.KeyValueExpr:
+		return es(x.Key) + ":" + es(x.Value)
+	}
+	return fmt.Sprintf("?%T", e)
+}
+
+func ess(xs []ast.Expr) string {
+	var as []string
+	for _, a := range xs {
+		as = append(as, es(a))
+	}
+	return strings.Join(as, ",")
+}
+
+type qctx struct {
+	fset   *token.FileSet
+	recv   string   // receiver name
+	params []string // parameter names
+	named  []string // named results
+	nres   int      // number of results
+	elem   string   // identifier bound by the enclosing `if elem := recv.queue.Front()`
+}
+
+func (c *qctx) errf(n ast.Node, format string, a ...any) error {
+	return fmt.Errorf("%s: %s", c.fset.Position(n.Pos()), fmt.Sprintf(format, a...))
+}
+
+func glist(xs []string) string { return "[" + strings.Join(xs, "; ") + "]" }
+
+// ---------------------------------------------------------------- net/queue
+
+func (c *qctx) block(b *ast.BlockStmt) ([]string, error) {
+	var out []string
+	if b == nil {
+		return out, nil
+	}
+	for _, s := range b.List {
+		t, err := c.stmt(s)
+		if err != nil {
+			return nil, err
+		}
+		out = append(out, t)
+	}
+	return out, nil
+}
+
+func (c *qctx) elseBranch(s ast.Stmt) ([]string, error) {
+	switch x := s.(type) {
+	case nil:
+		return nil, nil
+	case *ast.BlockStmt:
+		return c.block(x)
+	case *ast.IfStmt:
+		t, err := c.stmt(x)
+		if err != nil {
+			return nil, err
+		}
+		return []string{t}, nil
+	}
+	return nil, c.errf(s, "unknown else branch %T", s)
+}
+
+func (c *qctx) stmt(s ast.Stmt) (string, error) {
+	r := c.recv
+	switch x := s.(type) {
+	case *ast.ExprStmt:
+		switch es(x.X) {
+		case r + ".cond.L.Lock()":
+			return "SLock", nil
+		case r + ".cond.L.Unlock()":
+			return "SUnlock", nil
+		case r + ".cond.Signal()":
+			return "SSignal", nil
+		case r + ".cond.Broadcast()":
+			return "SBroadcast", nil
+		case r + ".cond.Wait()":
+			return "SWait", nil
+		case "panic(\"...\")":
+			return "SPanic", nil
+		case "close(" + r + ")":
+			return "SCloseChan", nil
+		}
+		if len(c.params) == 1 && es(x.X) == r+".queue.PushBack("+c.params[0]+")" {
+			return "SPushBack", nil
+		}
+		return "", c.errf(s, "unknown expression statement %q", es(x.X))
+	case *ast.AssignStmt:
+		if x.Tok != token.ASSIGN {
+			return "", c.errf(s, "unknown assignment operator %s in %q", x.Tok, ess(x.Lhs)+x.Tok.String()+ess(x.Rhs))
+		}
+		l, rh := ess(x.Lhs), ess(x.Rhs)
+		switch {
+		case l == r+".closed" && rh == "true":
+			return "SSetClosed", nil
+		case len(c.named) == 2 && l == c.named[1] && rh == "true":
+			return "SSetOk", nil
+		case len(c.named) == 2 && c.elem != "" && l == c.named[0] && rh == r+".queue.Remove("+c.elem+").(T)":
+			return "SRemoveFront", nil
+		case len(c.named) == 2 && l == c.named[0]+","+c.named[1] && rh == "<-"+r:
+			return "SRecv", nil
+		}
+		return "", c.errf(s, "unknown assignment %q = %q", l, rh)
+	case *ast.IfStmt:
+		var kind string
+		inner := *c
+		switch {
+		case x.Init == nil && es(x.Cond) == r+".closed":
+			kind = "SIfClosed"
+		case x.Init != nil:
+			as, ok := x.Init.(*ast.AssignStmt)
+			if !ok || as.Tok != token.DEFINE || len(as.Lhs) != 1 || ess(as.Rhs) != r+".queue.Front()" {
+				return "", c.errf(s, "unknown if-initialiser")
+			}
+			id := es(as.Lhs[0])
+			if es(x.Cond) != id+" != nil" {
+				return "", c.errf(s, "unknown condition %q after %s := %s.queue.Front()", es(x.Cond), id, r)
+			}
+			kind = "SIfFront"
+			inner.elem = id
+		default:
+			return "", c.errf(s, "unknown if condition %q", es(x.Cond))
+		}
+		th, err := inner.block(x.Body)
+		if err != nil {
+			return "", err
+		}
+		// the element identifier is not in scope of a correct Remove in the else branch (it is nil there)
+		el, err := c.elseBranch(x.Else)
+		if err != nil {
+			return "", err
+		}
+		return fmt.Sprintf("%s %s %s", kind, glist(th), glist(el)), nil
+	case *ast.ForStmt:
+		if x.Init != nil || x.Cond != nil || x.Post != nil {
+			return "", c.errf(s, "unknown for-loop header (only `for { ... }` is known)")
+		}
+		b, err := c.block(x.Body)
+		if err != nil {
+			return "", err
+		}
+		return "SLoop " + glist(b), nil
+	case *ast.BranchStmt:
+		if x.Tok == token.BREAK && x.Label == nil {
+			return "SBreak", nil
+		}
+		return "", c.errf(s, "unknown branch statement %s", x.Tok)
+	case *ast.ReturnStmt:
+		switch {
+		case len(x.Results) == 0 && (c.nres == 0 || len(c.named) == c.nres):
+			return "SReturn", nil
+		case len(x.Results) == 1 && c.nres == 1 && es(x.Results[0]) == "true":
+			return "SReturnTrue", nil
+		case len(x.Results) == 1 && c.nres == 1 && es(x.Results[0]) == "false":
+			return "SReturnFalse", nil
+		}
+		return "", c.errf(s, "unknown return %q", ess(x.Results))
+	case *ast.SelectStmt:
+		if len(x.Body.List) != 2 || len(c.params) != 1 {
+			return "", c.errf(s, "unknown select shape (want one send case and default)")
+		}
+		var sent, dflt []string
+		var haveSend, haveDflt bool
+		for _, cl := range x.Body.List {
+			cc := cl.(*ast.CommClause)
+			body := &ast.BlockStmt{List: cc.Body}
+			if cc.Comm == nil {
+				b, err := c.block(body)
+				if err != nil {
+					return "", err
+				}
+				dflt, haveDflt = b, true
+				continue
+			}
+			snd, ok := cc.Comm.(*ast.SendStmt)
+			if !ok || es(snd.Chan) != r || es(snd.Value) != c.params[0] {
+				return "", c.errf(cl, "unknown communication clause (want `case %s <- %s`)", r, c.params[0])
+			}
+			b, err := c.block(body)
+			if err != nil {
+				return "", err
+			}
+			sent, haveSend = b, true
+		}
+		if !haveSend || !haveDflt {
+			return "", c.errf(s, "unknown select shape (want one send case and default)")
+		}
+		return fmt.Sprintf("SSelectSend %s %s", glist(sent), glist(dflt)), nil
+	}
+	return "", c.errf(s, "unknown statement %T", s)
+}
+
+func recvTypeName(fd *ast.FuncDecl) string {
+	if fd.Recv == nil || len(fd.Recv.List) != 1 {
+		return ""
+	}
+	t := fd.Recv.List[0].Type
+	if st, ok := t.(*ast.StarExpr); ok {
+		t = st.X
+	}
+	if ix, ok := t.(*ast.IndexExpr); ok {
+		t = ix.X
+	}
+	if id, ok := t.(*ast.Ident); ok {
+		return id.Name
+	}
+	return ""
+}
+
+func fieldNames(fl *ast.FieldList) (names []string, n int) {
+	if fl == nil {
+		return nil, 0
+	}
+	for _, f := range fl.List {
+		if len(f.Names) == 0 {
+			n++
+		}
+		for _, id := range f.Names {
+			names = append(names, id.Name)
+			n++
+		}
+	}
+	return
+}
+
+func methodCtx(fset *token.FileSet, fd *ast.FuncDecl) *qctx {
+	c := &qctx{fset: fset}
+	if fd.Recv != nil && len(fd.Recv.List) == 1 && len(fd.Recv.List[0].Names) == 1 {
+		c.recv = fd.Recv.List[0].Names[0].Name
+	}
+	c.params, _ = fieldNames(fd.Type.Params)
+	c.named, c.nres = fieldNames(fd.Type.Results)
+	return c
+}
+
+func genQueueSkeleton(repo string, out *bytes.Buffer) error {
+	fset := token.NewFileSet()
+	path := filepath.Join(repo, "net/queue/queue.go")
+	f, err := parser.ParseFile(fset, path, nil, parser.SkipObjectResolution)
+	if err != nil {
+		return err
+	}
+	want := map[string]string{
+		"LinkedListQueue.Push": "push_prog", "LinkedListQueue.Pull": "pull_prog", "LinkedListQueue.Close": "close_prog",
+		"ChannelQueue.Push": "ch_push_prog", "ChannelQueue.Pull": "ch_pull_prog", "ChannelQueue.Close": "ch_close_prog",
+	}
+	sigs := map[string]string{ // params / results each method must have
+		"LinkedListQueue.Push": "1/1/0", "LinkedListQueue.Pull": "0/2/2", "LinkedListQueue.Close": "0/0/0",
+		"ChannelQueue.Push": "1/1/0", "ChannelQueue.Pull": "0/2/2", "ChannelQueue.Close": "0/0/0",
+	}
+	got := map[string]string{}
+	ctors := map[string]string{}
+	for _, d := range f.Decls {
+		fd, ok := d.(*ast.FuncDecl)
+		if !ok || fd.Body == nil {
+			continue
+		}
+		if fd.Recv == nil {
+			// constructors: a single return statement of a known shape
+			if fd.Name.Name == "NewLinkedQueue" || fd.Name.Name == "NewChannelQueue" {
+				if len(fd.Body.List) != 1 {
+					return fmt.Errorf("%s: %s: unknown constructor body", fset.Position(fd.Pos()), fd.Name.Name)
+				}
+				rs, ok := fd.Body.List[0].(*ast.ReturnStmt)
+				if !ok || len(rs.Results) != 1 {
+					return fmt.Errorf("%s: %s: unknown constructor body", fset.Position(fd.Pos()), fd.Name.Name)
+				}
+				ps, _ := fieldNames(fd.Type.Params)
+				ctors[fd.Name.Name] = strings.Join(ps, ",") + "|" + es(rs.Results[0])
+			}
+			continue
+		}
+		key := recvTypeName(fd) + "." + fd.Name.Name
+		name, ok := want[key]
+		if !ok {
+			if strings.HasPrefix(key, "LinkedListQueue.") || strings.HasPrefix(key, "ChannelQueue.") {
+				return fmt.Errorf("%s: method %s is not known to the translator", fset.Position(fd.Pos()), key)
+			}
+			continue
+		}
+		c := methodCtx(fset, fd)
+		if c.recv == "" {
+			return fmt.Errorf("%s: %s: receiver has no name", fset.Position(fd.Pos()), key)
+		}
+		if sig := fmt.Sprintf("%d/%d/%d", len(c.params), c.nres, len(c.named)); sig != sigs[key] {
+			return fmt.Errorf("%s: %s: unknown signature shape %s (want %s)", fset.Position(fd.Pos()), key, sig, sigs[key])
+		}
+		body, err := c.block(fd.Body)
+		if err != nil {
+			return fmt.Errorf("%s: %w", key, err)
+		}
+		got[key] = fmt.Sprintf("Definition %s : list stmt :=\n  %s.\n", name, glist(body))
+	}
+	for _, k := range []string{"LinkedListQueue.Push", "LinkedListQueue.Pull", "LinkedListQueue.Close",
+		"ChannelQueue.Push", "ChannelQueue.Pull", "ChannelQueue.Close"} {
+		if got[k] == "" {
+			return fmt.Errorf("%s: method %s not found", path, k)
+		}
+		fmt.Fprintf(out, "(* %s *)\n%s\n", k, got[k])
+	}
+	// constructors: empty list, not closed (field absent), fresh mutex; channel of the requested capacity
+	if c := ctors["NewLinkedQueue"]; c != "|&LinkedListQueue[T]{queue:list.New(),cond:sync.Cond{L:new(sync.Mutex)}}" {
+		return fmt.Errorf("%s: NewLinkedQueue has an unknown shape: %q", path, c)
+	}
+	if c := ctors["NewChannelQueue"]; c != "n|make(ChannelQueue[T],n)" {
+		return fmt.Errorf("%s: NewChannelQueue has an unknown shape: %q", path, c)
+	}
+	out.WriteString("(* NewLinkedQueue: empty list, closed unset, fresh mutex; NewChannelQueue(n): make(chan T, n) - shapes checked *)\n")
+	out.WriteString("Definition queue_ctor_shapes_checked : bool := true.\n\n")
+	return nil
+}
+
+// ---------------------------------------------------------------- server/playerlist.go
+
+func (c *qctx) pblock(list []ast.Stmt) ([]string, error) {
+	var out []string
+	for _, s := range list {
+		t, err := c.pstmt(s)
+		if err != nil {
+			return nil, err
+		}
+		out = append(out, t)
+	}
+	return out, nil
+}
+
+func (c *qctx) pstmt(s ast.Stmt) (string, error) {
+	r := c.recv
+	switch x := s.(type) {
+	case *ast.ExprStmt:
+		str := es(x.X)
+		switch {
+		case str == r+".playersLock.Lock()":
+			return "PLock", nil
+		case len(c.params) >= 1 && str == "delete("+r+".players,"+c.params[0]+")":
+			return "PDelete", nil
+		case len(c.params) >= 1 && strings.HasPrefix(str, c.params[0]+".SendDisconnect("):
+			return "PDisconnect", nil
+		}
+		return "", c.errf(s, "unknown expression statement %q", str)
+	case *ast.DeferStmt:
+		if es(x.Call) == r+".playersLock.Unlock()" {
+			return "PDeferUnlock", nil
+		}
+		return "", c.errf(s, "unknown defer %q", es(x.Call))
+	case *ast.IfStmt:
+		if x.Init != nil || x.Else != nil || es(x.Cond) != "len("+r+".players) >= "+r+".maxPlayer" {
+			return "", c.errf(s, "unknown if statement (condition %q)", es(x.Cond))
+		}
+		th, err := c.pblock(x.Body.List)
+		if err != nil {
+			return "", err
+		}
+		return "PIfFull " + glist(th), nil
+	case *ast.AssignStmt:
+		if x.Tok == token.ASSIGN && len(c.params) == 2 && ess(x.Lhs) == r+".players["+c.params[0]+"]" && ess(x.Rhs) == c.params[1] {
+			return "PInsert", nil
+		}
+		return "", c.errf(s, "unknown assignment %q %s %q", ess(x.Lhs), x.Tok, ess(x.Rhs))
+	case *ast.ReturnStmt:
+		switch {
+		case len(x.Results) == 0:
+			return "PReturn", nil
+		case len(x.Results) == 2 && es(x.Results[0]) == "false":
+			return "PReturnFalse", nil
+		case len(x.Results) == 2 && es(x.Results[0]) == "true":
+			return "PReturnTrue", nil
+		case len(x.Results) == 1 && es(x.Results[0]) == "len("+r+".players)":
+			return "PReturnLen", nil
+		}
+		return "", c.errf(s, "unknown return %q", ess(x.Results))
+	}
+	return "", c.errf(s, "unknown statement %T", s)
+}
+
+func genPlayerListSkeleton(repo string, out *bytes.Buffer) error {
+	fset := token.NewFileSet()
+	path := filepath.Join(repo, "server/playerlist.go")
+	f, err := parser.ParseFile(fset, path, nil, parser.SkipObjectResolution)
+	if err != nil {
+		return err
+	}
+	want := []struct{ method, name string }{
+		{"ClientJoin", "pl_join_prog"}, {"ClientLeft", "pl_left_prog"}, {"CheckPlayer", "pl_check_prog"}, {"Len", "pl_len_prog"},
+	}
+	got := map[string]string{}
+	// every other method must not write p.players / p.maxPlayer: scan for assignments, delete, and map writes
+	for _, d := range f.Decls {
+		fd, ok := d.(*ast.FuncDecl)
+		if !ok || fd.Body == nil || recvTypeName(fd) != "PlayerList" {
+			continue
+		}
+		c := methodCtx(fset, fd)
+		known := false
+		for _, w := range want {
+			if w.method == fd.Name.Name {
+				known = true
+				// unnamed parameters (CheckPlayer(string, uuid.UUID, int32)) have no names: fine
+				body, err := c.pblock(fd.Body.List)
+				if err != nil {
+					return fmt.Errorf("PlayerList.%s: %w", fd.Name.Name, err)
+				}
+				got[w.method] = fmt.Sprintf("Definition %s : list pstmt :=\n  %s.\n", w.name, glist(body))
+			}
+		}
+		if known {
+			continue
+		}
+		// read-only methods: no statement may modify the map or the capacity
+		var bad error
+		ast.Inspect(fd.Body, func(n ast.Node) bool {
+			switch x := n.(type) {
+			case *ast.AssignStmt:
+				for _, l := range x.Lhs {
+					if s := es(l); strings.HasPrefix(s, c.recv+".players") || strings.HasPrefix(s, c.recv+".maxPlayer") {
+						bad = c.errf(n, "method %s writes %s (not known to the translator)", fd.Name.Name, s)
+					}
+				}
+			case *ast.CallExpr:
+				if s := es(x); strings.HasPrefix(s, "delete("+c.recv+".players") || strings.HasPrefix(s, "clear("+c.recv+".players") {
+					bad = c.errf(n, "method %s modifies the player map (not known to the translator)", fd.Name.Name)
+				}
+			case *ast.IncDecStmt:
+				if s := es(x.X); strings.HasPrefix(s, c.recv+".") {
+					bad = c.errf(n, "method %s modifies %s", fd.Name.Name, s)
+				}
+			}
+			return true
+		})
+		if bad != nil {
+			return bad
+		}
+	}
+	for _, w := range want {
+		if got[w.method] == "" {
+			return fmt.Errorf("%s: method PlayerList.%s not found", path, w.method)
+		}
+		fmt.Fprintf(out, "(* PlayerList.%s *)\n%s\n", w.method, got[w.method])
+	}
+	return nil
+}
+
 func genQueue(repo string) (string, error) {
-	return "(* GENERATED by tools/gotrans - queue skeleton (not yet translated) *)\n", nil
+	var out bytes.Buffer
+	out.WriteString("(* GENERATED by tools/gotrans from net/queue/queue.go and server/playerlist.go - do not edit *)\n")
+	out.WriteString("From Coq Require Import List.\nFrom GoMC Require Import Model.C20_syntax.\nImport ListNotations.\n\n")
+	if err := genQueueSkeleton(repo, &out); err != nil {
+		return "", err
+	}
+	if err := genPlayerListSkeleton(repo, &out); err != nil {
+		return "", err
+	}
+	return out.String(), nil
 }
